@@ -275,8 +275,8 @@ func TestStreamRoundTrip(t *testing.T) {
 				if r.Position() != pos {
 					t.Fatalf("Position() = %d before op %d, expected %d", r.Position(), i, pos)
 				}
-				if r.Empty() {
-					t.Fatalf("Empty() before op %d of %d", i, len(ops))
+				if r.Empty() != (pos == total) {
+					t.Fatalf("Empty() = %v at position %d of %d", r.Empty(), pos, total)
 				}
 				if !bytes.Equal(r.UnreadSlice(), data[pos:]) {
 					t.Fatalf("UnreadSlice at %d differs", pos)
